@@ -33,15 +33,20 @@ def fn_span(lines, start):
     return start, start
 
 
+BASE_NOTES = None
+CFG = sys.argv[sys.argv.index("--cfg") + 1] if "--cfg" in sys.argv else "default"
+
+
 def run_unit(unit, repo):
-    p = subprocess.run([os.path.join(ROOT, "check"), "--unit", unit], capture_output=True, text=True, env=dict(os.environ, VERIF_REPO=repo), timeout=900)
+    p = subprocess.run([os.path.join(ROOT, "check"), "--unit", unit, "--cfg", CFG], capture_output=True, text=True, env=dict(os.environ, VERIF_REPO=repo), timeout=900)
     out = p.stdout + p.stderr
     st = re.search(r"status=(\S+)", out)
     fails = sorted(set(re.findall(r"^\s+FAIL (\S+)", out, re.M)))
     status = st.group(1) if st else "?"
-    if "functions kept by contract only" in out or "LOST ANCHOR" in out or "note: " in out and "instantiations" in out:
+    notes = sorted(set(re.findall(r"^vx: note: .*$", out, re.M)))
+    if "functions kept by contract only" in out or "LOST ANCHOR" in out or (BASE_NOTES is not None and notes != BASE_NOTES):
         status = "frontend/anchor"           # the mutant does not type-check or moved an anchor: not a verdict on the contract
-    return status, fails, out
+    return status, fails, (out, notes)
 
 
 def main():
@@ -56,10 +61,11 @@ def main():
     # sidecar of the unit on the unchanged tree
     tmp = tempfile.mkdtemp(prefix="mut-base-")
     vx = os.path.join(ROOT, "tools/vx/target/release/vx")
-    cmd = [vx] + sum((["--cfg", f] for f in CFGS["default"]), []) + [REPO, os.path.join(ROOT, "contracts", UNITS[unit]["vspec"]), os.path.join(tmp, "u.rs")]
+    cmd = [vx] + sum((["--cfg", f] for f in CFGS[CFG]), []) + [REPO, os.path.join(ROOT, "contracts", UNITS[unit]["vspec"]), os.path.join(tmp, "u.rs")]
     subprocess.run(cmd, check=True, capture_output=True)
     side = json.load(open(os.path.join(tmp, "u.rs.json")))
-    base_status, base_fails, _ = run_unit(unit, REPO)
+    global BASE_NOTES
+    base_status, base_fails, (_, BASE_NOTES) = run_unit(unit, REPO)
     print(f"baseline {unit}: status={base_status} failing={len(base_fails)}", flush=True)
     muts = []
     for f in side["functions"]:
@@ -122,7 +128,7 @@ def main():
     import collections
     c = collections.Counter(r["verdict"].split("(")[0] for r in res)
     print("summary", unit, dict(c), flush=True)
-    json.dump(res, open(f"/var/tmp/mutate-{unit}.json", "w"), indent=1)
+    json.dump(res, open(f"/var/tmp/mutate-{unit}-{CFG}.json", "w"), indent=1)
     shutil.rmtree(tmp, ignore_errors=True)
 
 
